@@ -170,19 +170,23 @@ def domainPair (a z : α) : α × α :=
   let x := Transc.acos ((1.0 : α) - (2.0 : α) * sq a) / twoPi
   if (0.0 : α) < z then ((1.0 : α) - x, x) else (x, (1.0 : α) - x)
 
-/-- `poling_domains` (a panic of the window propagates) -/
+/-- one step of `poling_domains`: prepend the pair of domain `i` (a panic of the window propagates) -/
+def domainStep (apod : Apod α) (len : α) (n i : Nat) (acc : Outcome (List (α × α))) :
+    Outcome (List (α × α)) :=
+  let z : α := domainCentre i n
+  match window apod z len, acc with
+  | .ok a, .ok l => .ok (domainPair a z :: l)
+  | .ok _, other => other
+  | .err e, _ => .err e
+  | .panic s, _ => .panic s
+
+/-- `poling_domains` -/
 def PP.polingDomains (p : PP α) (len : α) : Outcome (List (α × α)) :=
   match p with
   | .off => .ok []
   | .on _ _ apod =>
     let n := p.numDomains len
-    (List.range n).foldr (fun i acc =>
-      let z : α := domainCentre i n
-      match window apod z len, acc with
-      | .ok a, .ok l => .ok (domainPair a z :: l)
-      | .ok _, other => other
-      | .err e, _ => .err e
-      | .panic s, _ => .panic s) (.ok [])
+    (List.range n).foldr (domainStep apod len n) (.ok [])
 
 /-- `poling_domain_lengths` -/
 def PP.polingDomainLengths (p : PP α) (len : α) : Outcome (List (α × α)) :=
@@ -209,10 +213,13 @@ def PP.step (p : PP α) : Op α → PP α
 
 def PP.run (p : PP α) (ops : List (Op α)) : PP α := ops.foldl PP.step p
 
+/-- `math::sigfigs(x, 4)` as used for every length in a config: `round(x·10⁴)/10⁴` -/
+def sigfigs4 (x : α) : α := Transc.round (x * (10000.0 : α)) / (10000.0 : α)
+
 /-- config ↔ runtime mapping of the windows (`ApodizationConfig`): only the Gaussian carries a unit
-conversion, `fwhm_um = fwhm / 1e-6` and back `fwhm = fwhm_um · 1e-6` -/
+conversion, `fwhm_um = sigfigs(fwhm / 1e-6, 4)` and back `fwhm = fwhm_um · 1e-6` -/
 def Apod.viaConfig : Apod α → Apod α
-  | .gaussian fwhm => .gaussian (fwhm / (1e-6 : α) * (1e-6 : α))
+  | .gaussian fwhm => .gaussian (sigfigs4 (fwhm / (1e-6 : α)) * (1e-6 : α))
   | w => w
 
 end scalar
